@@ -37,6 +37,12 @@ LEVEL_TEXT = (
     "boundary_facets(), complement_dofs is the set complement in "
     "range(N). Equality of the four selector forms on concrete meshes and "
     "trace dependence (C03 + C04) are not decided.")
+LEVEL_TEXT += (
+    " Added after the seeding phase: queries are run for 2-D, "
+    "triangular-facet and quadrilateral-facet 3-D meshes; a query that "
+    "raises for an admissible count pattern is a violation; attributes "
+    "the stub objects do not model become opaque values, so a changed "
+    "lookup is reported instead of stopping the analysis.")
 LEVEL_NOTE = ("Trusted: numpy unique/concatenate/intersect1d/union1d/"
               "setdiff1d semantics; connectivity tables are coherent (C11).")
 EXPLANATION = "Provenance-tagged symbolic runs of the DOF query code."
